@@ -34,6 +34,15 @@ Hypotheses per decoded operation (`Legacy.OpOK`, all decidable: `opOKb`):
   `copy` re-spells; names survive re-quoting);
 * `toks` – the reference tokens of `path` survive `quoteBody true` / `unquote`;
 * `nn`   – a present value is not the literal `null` (guaranteed by `Legacy.decodeOp`).
+
+RFC 6901 strictness (`Legacy.strictOp`, decidable, `JP/Lemmas/LegacyEngineApply.lean`).  The
+specification rejects a non-empty pointer without a leading `/` (`parentUnreachable`; for `move` /
+`copy` with such a destination the failure of the source half is reported); the legacy
+`findObject` ignores the text before the first `/`.  The property text for the legacy package does
+not promise this strictness, so the theorems carry the hypothesis `strictOp op` for every
+operation: the `path` of a `remove`, `move` or `copy` and the `from` of a `move` parse (`add`,
+`replace`, `test` with a malformed `path` and `copy` with a malformed `from` need no exclusion: the
+specification's failure is not a listed cause there).  The examples at the end show it is needed.
 -/
 
 namespace JP
@@ -43,13 +52,14 @@ open Value Legacy
 /-- **C18, the engine**: from a root related to the document `d`, against `Spec.applyFrom` -/
 theorem applyOps_refines (neg : Bool) (sizeAt : Nat → Nat) (ops : List Legacy.Op) (sops : List Spec.Op)
     (root : Legacy.Node) (d : Value) (i acc : Nat) (acci : Int)
-    (hrel : Rel root d) (hs : Legacy.specOps ops = some sops) (hops : ∀ op ∈ ops, OpOK op) :
+    (hrel : Rel root d) (hs : Legacy.specOps ops = some sops) (hops : ∀ op ∈ ops, OpOK op)
+    (hstrict : ∀ op ∈ ops, Legacy.strictOp op = true) :
     match Spec.applyFrom (Legacy.specOpts neg) sizeAt i acc d sops with
     | .ok v => ∃ r', Legacy.applyOps neg 0 root acci ops = .ok r' ∧
         Legacy.WF r' = true ∧ isDA r' = true ∧ Value.eqv (Legacy.den r') v = true ∧ Rel r' v
     | .fail j c => listedAt sops i j c = true → ∃ e, Legacy.applyOps neg 0 root acci ops = .err e
     | .unspec => True := by
-  have := applyOps_refines_rel neg sizeAt ops sops root d i acc acci hrel hs hops
+  have := applyOps_refines_rel neg sizeAt ops sops root d i acc acci hrel hs hops hstrict
   cases hres : Spec.applyFrom (Legacy.specOpts neg) sizeAt i acc d sops with
   | unspec => trivial
   | fail j c => rw [hres] at this; exact this
@@ -63,7 +73,8 @@ array-rooted document against the engine started on the root `ApplyIndent` decod
 theorem apply_refines (neg : Bool) (sizeAt : Nat → Nat) (c : Cst)
     (hc1 : c.valueOf.noDup = true) (hc2 : RawOK c = true)
     (ops : List Legacy.Op) (sops : List Spec.Op)
-    (hs : Legacy.specOps ops = some sops) (hops : ∀ op ∈ ops, OpOK op) :
+    (hs : Legacy.specOps ops = some sops) (hops : ∀ op ∈ ops, OpOK op)
+    (hstrict : ∀ op ∈ ops, Legacy.strictOp op = true) :
     match Spec.apply (Legacy.specOpts neg) sizeAt c.valueOf sops with
     | .ok v => ∃ r', Legacy.applyOps neg 0 (rootOf c) 0 ops = .ok r' ∧
         Legacy.WF r' = true ∧ Value.eqv (Legacy.den r') v = true
@@ -75,7 +86,7 @@ theorem apply_refines (neg : Bool) (sizeAt : Nat → Nat) (c : Cst)
   | true =>
     simp only [if_true]
     have h := applyOps_refines neg sizeAt ops sops (rootOf c) c.valueOf 0 0 0
-      (rootOf_rel hc1 hc2 hcont) hs hops
+      (rootOf_rel hc1 hc2 hcont) hs hops hstrict
     cases hres : Spec.applyFrom (Legacy.specOpts neg) sizeAt 0 0 c.valueOf sops with
     | unspec => trivial
     | fail j cc => rw [hres] at h; exact h
@@ -90,7 +101,8 @@ order; a listed failure is an error (no document) -/
 theorem applyBytes_refines (neg : Bool) (sizeAt : Nat → Nat) (doc : Bytes) (c : Cst)
     (hp : parseCst doc = some c) (hc1 : c.valueOf.noDup = true) (hc2 : RawOK c = true)
     (ops : List Legacy.Op) (sops : List Spec.Op)
-    (hs : Legacy.specOps ops = some sops) (hops : ∀ op ∈ ops, OpOK op) :
+    (hs : Legacy.specOps ops = some sops) (hops : ∀ op ∈ ops, OpOK op)
+    (hstrict : ∀ op ∈ ops, Legacy.strictOp op = true) :
     match Spec.apply (Legacy.specOpts neg) sizeAt c.valueOf sops with
     | .ok v => ∃ r', Legacy.applyBytes neg 0 [] doc ops = .ok (Cst.print (Legacy.cstOf r')) ∧
         (Legacy.cstOf r').valueOf.noDup = true ∧ Value.eqv (Legacy.cstOf r').valueOf v = true
@@ -105,7 +117,7 @@ theorem applyBytes_refines (neg : Bool) (sizeAt : Nat → Nat) (doc : Bytes) (c 
     have hroot := decodeRoot_of_parse hp hcc
     have hne := parseCst_ne_nil hp
     have h := applyOps_refines neg sizeAt ops sops (rootOf c) c.valueOf 0 0 0
-      (rootOf_rel hc1 hc2 hcont) hs hops
+      (rootOf_rel hc1 hc2 hcont) hs hops hstrict
     cases hres : Spec.applyFrom (Legacy.specOpts neg) sizeAt 0 0 c.valueOf sops with
     | unspec => trivial
     | fail j cc =>
@@ -211,14 +223,15 @@ duplicate names, document and operation values spelled plainly, valid UTF-8 refe
 theorem applyBytes_refines_plain (neg : Bool) (sizeAt : Nat → Nat) (doc : Bytes) (c : Cst)
     (hp : parseCst doc = some c) (hc1 : c.valueOf.noDup = true) (hc2 : PlainCst c = true)
     (ops : List Legacy.Op) (sops : List Spec.Op)
-    (hs : Legacy.specOps ops = some sops) (hops : ∀ op ∈ ops, opPlainb op = true) :
+    (hs : Legacy.specOps ops = some sops) (hops : ∀ op ∈ ops, opPlainb op = true)
+    (hstrict : ∀ op ∈ ops, Legacy.strictOp op = true) :
     match Spec.apply (Legacy.specOpts neg) sizeAt c.valueOf sops with
     | .ok v => ∃ r', Legacy.applyBytes neg 0 [] doc ops = .ok (Cst.print (Legacy.cstOf r')) ∧
         (Legacy.cstOf r').valueOf.noDup = true ∧ Value.eqv (Legacy.cstOf r').valueOf v = true
     | .fail j c' => listedAt sops 0 j c' = true → ∃ e, Legacy.applyBytes neg 0 [] doc ops = .err e
     | .unspec => True :=
   applyBytes_refines neg sizeAt doc c hp hc1 (RawOK_of_PlainCst hc2) ops sops hs
-    (fun op h => opOK_of_plain (hops op h))
+    (fun op h => opOK_of_plain (hops op h)) hstrict
 
 /-! ### the hypotheses are satisfiable: a run with every kind of operation -/
 
@@ -247,6 +260,9 @@ def exOps : List Legacy.Op := [
 example : exDoc.valueOf.noDup = true ∧ RawOK exDoc = true ∧ exDoc.valueOf.isContainer = true := by
   decide +kernel
 example : exOps.all opOKb = true := by decide +kernel
+example : exOps.all Legacy.strictOp = true := by decide +kernel
+example : ∀ op ∈ exOps, Legacy.strictOp op = true :=
+  Legacy.strictOps_iff.1 (by decide +kernel)
 example : PlainCst exDoc = true ∧ exOps.all opPlainb = true := by decide +kernel
 example : parseCst (Cst.print exDoc) = some exDoc := rfl
 example : (Legacy.specOps exOps).isSome = true := by decide +kernel
@@ -355,6 +371,29 @@ example : (match specRun true dDoc [mkOp "add" "/n" none .null, mkOp "copy" "/m"
     | .fail 2 .parentUnreachable => true | _ => false) = true ∧
     legacyOk dDoc [mkOp "add" "/n" none .null, mkOp "copy" "/m" (some "/n"), mkOp "test" "/m/x" none .null] = true := by
   decide +kernel
+
+/-! #### RFC 6901 strictness (`strictOp`): the hypothesis is needed -/
+
+/-- a pointer without a leading `/`: does not resolve for the specification (listed for `remove`:
+`parentUnreachable`), the legacy package ignores the text before the first `/` and removes `a` -/
+example : (match specRun true dDoc [mkOp "remove" "x/a"] with
+    | .fail 0 .parentUnreachable => true | _ => false) = true ∧
+    (match Legacy.specOps [mkOp "remove" "x/a"] with
+     | some sops => listedAt sops 0 0 .parentUnreachable | none => false) = true ∧
+    legacyOk dDoc [mkOp "remove" "x/a"] = true ∧
+    Legacy.strictOp (mkOp "remove" "x/a") = false ∧
+    opOKb (mkOp "remove" "x/a") = true := by decide +kernel
+
+/-- … the same for the `from` of a `move` -/
+example : (match specRun true dDoc [mkOp "move" "/b" (some "x/a")] with
+    | .fail 0 .parentUnreachable => true | _ => false) = true ∧
+    legacyOk dDoc [mkOp "move" "/b" (some "x/a")] = true ∧
+    Legacy.strictOp (mkOp "move" "/b" (some "x/a")) = false := by decide +kernel
+
+/-- `add` with such a pointer needs no exclusion: `parentUnreachable` is not listed for `add` -/
+example : (match specRun true dDoc [mkOp "add" "x/b" none (.val (.lit (ascii "2")))] with
+    | .fail 0 .parentUnreachable => true | _ => false) = true ∧
+    Legacy.strictOp (mkOp "add" "x/b" none (.val (.lit (ascii "2")))) = true := by decide +kernel
 
 end Deviations
 
